@@ -246,6 +246,32 @@ pub fn scenarios(tier: Tier) -> Vec<Scenario> {
                     step(steps, sink, "into_inner", false, || w.into_inner().map(|_| 0).map_err(|e| e.to_string()));
                 }),
             });
+            // the same writer when every append fills the block at once (block size 1): header, block and
+            // marker all go out during the very first append
+            let schema = Schema::parse_str(kit.text).expect("kit");
+            let kit2 = kit.clone();
+            out.push(Scenario {
+                name: format!("container-block-per-append/{}/{}", kit.name, cn),
+                desc: json!({"path": "Writer with block_size 1: append_value_ref(big) first, append_value, append_ser-less extend, into_inner", "schema": kit.name, "codec": cn}),
+                container: true,
+                run: Box::new(move |sink, steps| {
+                    let marker = [7u8; 16];
+                    let mut w = Writer::builder().schema(&schema).writer(sink.clone()).codec(codec).marker(marker).block_size(1).build().expect("writer");
+                    if !step(steps, sink, "append_value_ref(big, first)", true, || w.append_value_ref(&kit2.big).map_err(|e| e.to_string())) {
+                        drop(w);
+                        return;
+                    }
+                    if !step(steps, sink, "append_value", true, || w.append_value(kit2.small.clone()).map_err(|e| e.to_string())) {
+                        drop(w);
+                        return;
+                    }
+                    if !step(steps, sink, "extend", true, || w.extend(vec![kit2.small.clone(), kit2.small2.clone()]).map_err(|e| e.to_string())) {
+                        drop(w);
+                        return;
+                    }
+                    step(steps, sink, "into_inner", false, || w.into_inner().map(|_| 0).map_err(|e| e.to_string()));
+                }),
+            });
         }
     }
     // S3: generic single-object writer, two messages through one instance
